@@ -22,3 +22,18 @@ fn norm_scaler_zero_row_finite() {
     let y = crate::norm_scaling::NormScaler::max().transform(m);
     assert!(y[(0, 0)].is_finite() && y[(0, 1)].is_finite());
 }
+
+#[kani::proof]
+#[kani::unwind(6)]
+#[kani::stub(alloc::fmt::format, fmt_stub)]
+fn min_max_fit_offsets_scales() {
+    let x: [i8; 3] = kani::any();
+    for i in 0..3 { kani::assume(x[i] >= -8 && x[i] <= 8); }
+    let m = Array2::from_shape_vec((3, 1), vec![x[0] as f32, x[1] as f32, x[2] as f32]).unwrap();
+    let sc = ScalingMethod::<f32>::MinMax(0.0, 1.0).fit(&m).unwrap();
+    let lo = x[0].min(x[1]).min(x[2]); let hi = x[0].max(x[1]).max(x[2]);
+    assert!(sc.offsets()[0] == lo as f32);
+    if hi == lo { assert!(sc.scales()[0] == 1.0); } else { assert!(sc.scales()[0] == 1.0 / ((hi - lo) as f32)); }
+    let y = sc.transform(m);
+    if hi != lo { let mut saw0 = false; let mut saw1 = false; for i in 0..3 { if x[i] == lo { saw0 = y[(i,0)] == 0.0; } if x[i] == hi { saw1 = (y[(i,0)] - 1.0).abs() <= 1.0e-6; } } assert!(saw0 && saw1); }
+}
